@@ -37,16 +37,71 @@ theorem upperC_eq_iff_lowerC_eq (c d : Char) : upperC c = upperC d ↔ lowerC c 
   rw [← Char.toNat_inj, ← Char.toNat_inj, upperC_toNat, upperC_toNat, lowerC_toNat, lowerC_toNat]
   split <;> split <;> split <;> split <;> omega
 
-/-- on the model's strings, "equal after `.upper()`" and "equal after `.lower()`" coincide -/
-theorem upper_eq_iff_lower_eq (a b : Str) : upper a = upper b ↔ lower a = lower b := by
+theorem upperS_ascii (c : Char) (h : c.toNat < 128) : upperS c = [upperC c] := by
+  have hne : ∀ n, 128 ≤ n → n < 0xD800 → c ≠ Char.ofNat n := by
+    intro n h1 h2 he
+    have := toNat_ofNat_small n h2
+    rw [← he] at this
+    omega
+  unfold upperS
+  simp only [hne 0xDF (by omega) (by omega), hne 0x131 (by omega) (by omega), hne 0x17F (by omega) (by omega), if_false]
+  have hbig : ∀ n, 0xDFFF < n → n < 0x110000 → c ≠ Char.ofNat n := by
+    intro n h1 h2 he
+    have hv : n.isValidChar := Or.inr ⟨h1, h2⟩
+    have : (Char.ofNat n).toNat = n := by
+      simp only [Char.ofNat, hv, dif_pos, Char.ofNatAux, Char.toNat]
+      simp [UInt32.toNat_ofNatLT]
+    rw [← he] at this
+    omega
+  simp only [hbig 0xFB00 (by omega) (by omega), hbig 0xFB01 (by omega) (by omega), hbig 0xFB02 (by omega) (by omega),
+    hbig 0xFB03 (by omega) (by omega), hbig 0xFB04 (by omega) (by omega), hbig 0xFB05 (by omega) (by omega),
+    hbig 0xFB06 (by omega) (by omega), if_false]
+
+theorem lowerS_ascii (c : Char) (h : c.toNat < 128) : lowerS c = [lowerC c] := by
+  have : c ≠ Char.ofNat 0x212A := by
+    intro he
+    have := toNat_ofNat_small 0x212A (by omega)
+    rw [← he] at this
+    omega
+  unfold lowerS
+  simp only [this, if_false]
+
+theorem upper_ascii (a : Str) (h : isAscii a) : upper a = a.map upperC := by
+  induction a with
+  | nil => rfl
+  | cons x xs ih =>
+    have hx := h x (List.mem_cons_self)
+    have := ih (fun c hc => h c (List.mem_cons_of_mem _ hc))
+    simp only [upper, List.flatMap_cons, List.map_cons] at this ⊢
+    rw [upperS_ascii x hx, this]
+    rfl
+
+theorem lower_ascii (a : Str) (h : isAscii a) : lower a = a.map lowerC := by
+  induction a with
+  | nil => rfl
+  | cons x xs ih =>
+    have hx := h x (List.mem_cons_self)
+    have := ih (fun c hc => h c (List.mem_cons_of_mem _ hc))
+    simp only [lower, List.flatMap_cons, List.map_cons] at this ⊢
+    rw [lowerS_ascii x hx, this]
+    rfl
+
+theorem map_upper_eq_iff_map_lower_eq (a b : Str) : a.map upperC = b.map upperC ↔ a.map lowerC = b.map lowerC := by
   induction a generalizing b with
-  | nil => cases b <;> simp [upper, lower]
+  | nil => cases b <;> simp
   | cons x xs ih =>
     cases b with
-    | nil => simp [upper, lower]
+    | nil => simp
     | cons y ys =>
-      simp only [upper, lower, List.map_cons, List.cons.injEq] at ih ⊢
+      simp only [List.map_cons, List.cons.injEq]
       rw [upperC_eq_iff_lowerC_eq, ih ys]
+
+/-- on ASCII strings, "equal after `.upper()`" (the parser's test) and "equal after `.lower()`" (the
+manager's test) coincide; `kelvin_name_resolves_to_other_register` in Props shows they do not beyond ASCII -/
+theorem upper_eq_iff_lower_eq (a b : Str) (ha : isAscii a) (hb : isAscii b) :
+    upper a = upper b ↔ lower a = lower b := by
+  rw [upper_ascii a ha, upper_ascii b hb, lower_ascii a ha, lower_ascii b hb]
+  exact map_upper_eq_iff_map_lower_eq a b
 
 /-! ### `_get_dict_item_case_insensitive` -/
 
